@@ -305,9 +305,9 @@ def run():
         kinds[r['kind']] = kinds.get(r['kind'], 0) + 1
         if r['kind'] == 'stat' and len(set(r['lab']) - {-1}) >= 2 and -1 in r['lab']:
             ctx.nontrivial((tuple(r['lab']), tuple(r['v']), r['f']))
-    ctx.sample([r for r in recs if r['kind'] == 'stat' and r['lab'] == [0, -1, 0, 1] and r['f'] == 'sum'][0] if L >= 4 else recs[0])
-    ctx.sample([r for r in recs if r['kind'] == 'align'][0])
-    ctx.sample([r for r in recs if r['kind'] == 'bin'][0])
+    ctx.sample_first([r for r in recs if r['kind'] == 'stat' and r['lab'] == [0, -1, 0, 1] and r['f'] == 'sum'] or recs[:1])
+    ctx.sample_first([r for r in recs if r['kind'] == 'align'])
+    ctx.sample_first([r for r in recs if r['kind'] == 'bin'])
     ctx.leg('A', invariants=invs)
     ctx.leg('BC', records=kinds)
     ctx.cov['exhaustive'] = True
